@@ -361,6 +361,26 @@ impl BlobLog {
         }
     }
 
+    /// Replaces the contents of this log with the contents of a snapshot.
+    ///
+    /// The segment size of this log is kept; it only governs when the active
+    /// segment is sealed.
+    pub fn replace_with(&self, snapshot: BlobLogSnapshot) {
+        let restored = Self::restore(snapshot);
+        *self.active.lock() = restored.active.into_inner();
+        *self.sealed.write() = restored.sealed.into_inner();
+        *self.index.write() = restored.index.into_inner();
+        self.garbage.lock().clear();
+        self.next_segment_id.store(
+            restored.next_segment_id.load(Ordering::Relaxed),
+            Ordering::Relaxed,
+        );
+        self.total_bytes
+            .store(restored.total_bytes.load(Ordering::Relaxed), Ordering::Relaxed);
+        self.chunk_count
+            .store(restored.chunk_count.load(Ordering::Relaxed), Ordering::Relaxed);
+    }
+
     /// Restore from a snapshot.
     #[must_use]
     pub fn restore(snapshot: BlobLogSnapshot) -> Self {
